@@ -234,8 +234,35 @@ pub fn run(ctx: &Ctx) -> Report {
         let (ct, t, cname) = COLS[ci];
         let (wlo, whi) = int_range(t, unsigned);
         let v = gen_int_in(rng, wlo.max(i64::MIN as i128), whi.min(i64::MAX as i128));
-        // pick a source type whose whole range fits (always accepted) or usize/isize
-        let cell = if v >= 0 && rng.bool() { V::Usize(v as usize) } else { V::Isize(v as isize) };
+        // any Rust integer type that can hold the value
+        let cell = {
+            let mut opts: Vec<V> = vec![V::Isize(v as isize), V::Myc(MV::Int(v as i64))];
+            if v >= 0 {
+                opts.push(V::Usize(v as usize));
+                opts.push(V::U64(v as u64));
+                opts.push(V::Myc(MV::UInt(v as u64)));
+            }
+            opts.push(V::I64(v as i64));
+            if v >= i32::MIN as i128 && v <= i32::MAX as i128 {
+                opts.push(V::I32(v as i32));
+            }
+            if v >= i16::MIN as i128 && v <= i16::MAX as i128 {
+                opts.push(V::I16(v as i16));
+            }
+            if v >= i8::MIN as i128 && v <= i8::MAX as i128 {
+                opts.push(V::I8(v as i8));
+            }
+            if v >= 0 && v <= u32::MAX as i128 {
+                opts.push(V::U32(v as u32));
+            }
+            if v >= 0 && v <= u16::MAX as i128 {
+                opts.push(V::U16(v as u16));
+            }
+            if v >= 0 && v <= u8::MAX as i128 {
+                opts.push(V::U8(v as u8));
+            }
+            opts[rng.usize(opts.len())].clone()
+        };
         let col = Column { table: "t".into(), column: "c".into(), coltype: ct, colflags: if unsigned { ColumnFlags::UNSIGNED_FLAG } else { ColumnFlags::empty() } };
         let ops = vec![QOp::Start(0), QOp::Col(Cell::val(cell.clone())), QOp::EndRow, QOp::Finish];
         let cmds = vec![Cmd::prepare(b"p"), Cmd::execute(1, &[], false)];
@@ -250,6 +277,11 @@ pub fn run(ctx: &Ctx) -> Report {
             rep.sample(d());
         }
         let accepted = obs.log.cbs.iter().any(|c| c.results.iter().any(|r| r.op == "col" && r.err.is_none()));
+        if let Outcome::Panic { .. } = &obs.outcome {
+            // a loud refusal (assert on a same-width sign mismatch): judged by the matrix part
+            rep.counters.inc("rows_refused");
+            return;
+        }
         if !accepted {
             // judged by the matrix part (same call); nothing on the wire to compare
             rep.counters.inc("rows_refused");
@@ -257,8 +289,11 @@ pub fn run(ctx: &Ctx) -> Report {
         }
         if let Ok((_, _, dec)) = decode_output(&obs) {
             if let Some(crate::wire::Resp::Parts(parts)) = dec.resps.get(3) {
-                if let Some(crate::wire::Part::Rows { rows, .. }) = parts.first() {
-                    if let Some(Ok(vals)) = rows.first().map(|r| wire::decode_bin_row(r, &[(t, if unsigned { wire::F_UNSIGNED } else { 0 })])) {
+                if let Some(crate::wire::Part::Rows { rows, cols: defs, .. }) = parts.first() {
+                    // a client decodes with the definition it RECEIVED, not with what the shim meant
+                    let adv: Vec<(u8, u16)> = defs.iter().map(|c| (c.typ, c.flags)).collect();
+                    let _ = t;
+                    if let Some(Ok(vals)) = rows.first().map(|r| wire::decode_bin_row(r, &adv)) {
                         rep.counters.inc("rows_compared");
                         if vals != vec![BinVal::Int(v)] {
                             rep.violations.push(viol("C15", format!("C15 altered-in-row col={}/{}", cname, if unsigned { "unsigned" } else { "signed" }), format!("{:?} written to a {} column arrives as {:?}", cell, cname, vals), d()));
